@@ -1045,6 +1045,39 @@ def r59_assert_eq_shape(text, base_line=0):
     return pat.sub(lambda m: 'if %s != %s { panic!("shape mismatch"); }' % (m.group(1), m.group(2)), text), log
 
 
+def r60_range_map_collect(text, base_line=0):
+    """R60: `(0..N).map(|_| BODY).collect()` (nested: innermost first; leaf type f32) -> `({ let mut __n_d: Vec<..<f32>..> = Vec::new(); for __r_d in 0..N { __n_d.push(BODY); } __n_d })`
+    (d = nesting depth counted from the innermost; the annotation is static information only: rustc rejects a wrong one)"""
+    log = []
+    pat = re.compile(r"\(0\.\.(\w+)\)\s*\.map\(\|_\|\s*")
+    while True:
+        ms = list(pat.finditer(text))
+        if not ms:
+            return text, log
+        m = ms[-1]
+        n = m.group(1)
+        k, depth = m.end(), 0
+        while k < len(text):
+            ch = text[k]
+            if ch in "([{":
+                depth += 1
+            elif ch in ")]}":
+                if depth == 0:
+                    break
+                depth -= 1
+            k += 1
+        tail = re.match(r"\)\s*\.collect\(\)", text[k:])
+        if not tail:
+            raise LostAnchor("R60: `.collect()` does not follow the mapped closure")
+        body = text[m.end():k].rstrip().rstrip(",").rstrip()
+        d = 1 + max([int(x) for x in re.findall(r"__n_(\d+)", body)] or [0])
+        ty = "Vec<" * d + "f32" + ">" * d
+        new = "({ let mut __n_%d: %s = Vec::new(); for __r_%d in 0..%s { __n_%d.push(%s); } __n_%d })" % (d, ty, d, n, d, body, d)
+        new += "\n" * max(0, text[m.start():k + tail.end()].count("\n") - new.count("\n"))
+        log.append("R60 line %d: `(0..%s).map(|_| ..).collect()` -> counted loop pushing the closure value into a new `%s`" % (base_line + text.count("\n", 0, m.start()), n, ty))
+        text = text[:m.start()] + new + text[k + tail.end():]
+
+
 def r36_extend(text, base_line=0):
     """R36: `X.extend(Y);` (Y a reference to a Vec of `Copy` elements) -> `for __e in 0..Y.len() { X.push(Y[__e]); }`"""
     log = []
@@ -1396,9 +1429,9 @@ REWRITES = {
     "R1": r1_compound_assign, "R2": r2_unary_minus, "R3": r3_scale_call, "R6": r6_for_with_continue,
     "R7": r7_isqrt, "R8": r8_step_by, "R9": r9_consts, "R10": r10_tail_continue,
     "R12": r12_enumerate, "R15": r15_iter, "R16": r16_map_index, "R17": r17_for_in_ref_vec, "R18": r18_assert_eq_shape,
-    "R19": r19_last_unwrap, "R20": r20_range_enumerate, "R21": r21_to_owned, "R22": r22_map_collect, "R23": r23_slice_iter, "R24": r24_name_wildcard_loop, "R25": r25_par_map_collect, "R26": r26_zip_iter_mut, "R27": r27_sum_f32, "R28": r28_as_f32, "R29": r29_consuming_for, "R30": r30_rev_take_collect, "R31": r31_zip_map_sum, "R32": r32_chunked_zip_flat_map, "R33": r33_unzip, "R34": r34_chunked_flat_map, "R35": r35_chunk_const, "R36": r36_extend, "R37": r37_for_in_ref, "R38": r38_flat_map3, "R39": r39_unflatten, "R42": r42_assert_eq, "R43": r43_mut_self, "R44": r44_name_tail_call, "R45": r45_min_method, "R47": r47_zip_mut_enumerate, "R48": r48_fold_max, "R49": r49_chunks_exact_view, "R50": r50_inner_map_collect, "R51": r51_last_mut, "R52": r52_extend_clone, "R53": r53_flat_zip_map_sum, "R54": r54_zip_map_collect, "R55": r55_len_as_f32, "R56": r56_extend_map, "R57": r57_iter_mut_for_each_while, "R58": r58_zip_mut_for_each_while, "R59": r59_assert_eq_shape, "R46": r46_f32_as_usize, "R40": r40_for_mut_ref, "R41": r41_iter_mut_for_each, "R13": r13_panic_allowed, "R14": r14_panic_forbidden,
+    "R19": r19_last_unwrap, "R20": r20_range_enumerate, "R21": r21_to_owned, "R22": r22_map_collect, "R23": r23_slice_iter, "R24": r24_name_wildcard_loop, "R25": r25_par_map_collect, "R26": r26_zip_iter_mut, "R27": r27_sum_f32, "R28": r28_as_f32, "R29": r29_consuming_for, "R30": r30_rev_take_collect, "R31": r31_zip_map_sum, "R32": r32_chunked_zip_flat_map, "R33": r33_unzip, "R34": r34_chunked_flat_map, "R35": r35_chunk_const, "R36": r36_extend, "R37": r37_for_in_ref, "R38": r38_flat_map3, "R39": r39_unflatten, "R42": r42_assert_eq, "R43": r43_mut_self, "R44": r44_name_tail_call, "R45": r45_min_method, "R47": r47_zip_mut_enumerate, "R48": r48_fold_max, "R49": r49_chunks_exact_view, "R50": r50_inner_map_collect, "R51": r51_last_mut, "R52": r52_extend_clone, "R53": r53_flat_zip_map_sum, "R54": r54_zip_map_collect, "R55": r55_len_as_f32, "R56": r56_extend_map, "R57": r57_iter_mut_for_each_while, "R58": r58_zip_mut_for_each_while, "R59": r59_assert_eq_shape, "R60": r60_range_map_collect, "R46": r46_f32_as_usize, "R40": r40_for_mut_ref, "R41": r41_iter_mut_for_each, "R13": r13_panic_allowed, "R14": r14_panic_forbidden,
 }
-ORDER = ["R42", "R43", "R44", "R28", "R46", "R45", "R47", "R48", "R49", "R18", "R13", "R14", "R16", "R55", "R53", "R54", "R56", "R50", "R51", "R52", "R40", "R59", "R58", "R57", "R41", "R38", "R39", "R36", "R37", "R31", "R32", "R34", "R35", "R33", "R25", "R26", "R29", "R30", "R27", "R20", "R22", "R23", "R24", "R12", "R15", "R17", "R19", "R21", "R10", "R8", "R6", "R9", "R7", "R3", "R1", "R2"]
+ORDER = ["R42", "R43", "R44", "R28", "R46", "R45", "R47", "R48", "R49", "R18", "R13", "R14", "R16", "R55", "R53", "R54", "R56", "R50", "R51", "R52", "R40", "R60", "R59", "R58", "R57", "R41", "R38", "R39", "R36", "R37", "R31", "R32", "R34", "R35", "R33", "R25", "R26", "R29", "R30", "R27", "R20", "R22", "R23", "R24", "R12", "R15", "R17", "R19", "R21", "R10", "R8", "R6", "R9", "R7", "R3", "R1", "R2"]
 
 
 def apply_rewrites(text, names, base_line):
